@@ -1,8 +1,13 @@
 import YaqsModel.Basic.Parse
 import YaqsModel.Model.Sweep
+import YaqsModel.Model.Conserve
 /-! line protocol for the sweep schedules:
     `ldtdvp <L> <maxBond> <digital> | seenLR… | seenRL…`, `single <L> <digital>`, `two <L> <digital>`, `bug <L>`
-    → the primitive updates as `s:i:c` (site), `b:i:c` (bond), `p:i:c` (pair), `x:i:R|L` (split), `t` (truncate) -/
+    → the primitive updates as `s:i:c` (site), `b:i:c` (bond), `p:i:c` (pair), `x:i:R|L` (split), `t` (truncate)
+    `fullsingle <L> <digital>`, `fulltwo <L> <digital>`, `fullldtdvp <L> <maxBond> <digital> | seenLR… | seenRL…`
+    → the same lists with the gauge steps of `Model/Conserve.lean` written out: `q:i` (QR of site i, centre moves right),
+      `a:b` (bond matrix absorbed into site b+1), `Q:i` (QR of the transposed site i, centre moves left), `A:b` (absorbed
+      into site b), `m:p` (merge of sites p, p+1) -/
 open Yaqs Yaqs.Sweep
 
 def showOp : Op → String
@@ -11,6 +16,16 @@ def showOp : Op → String
   | .pair i c => s!"p:{i}:{showRat c}"
   | .split i r => s!"x:{i}:{if r then "R" else "L"}"
   | .trunc => "t"
+
+def showStep : Step → String
+  | .prim o => showOp o
+  | .qrRight i => s!"q:{i}"
+  | .absorbRight b => s!"a:{b}"
+  | .qrLeft i => s!"Q:{i}"
+  | .absorbLeft b => s!"A:{b}"
+  | .merge p => s!"m:{p}"
+
+def showSteps (l : List Step) : String := if l.isEmpty then "none" else joinWith " " (l.map showStep)
 
 def showOps (l : List Op) : String := if l.isEmpty then "none" else joinWith " " (l.map showOp)
 
@@ -24,6 +39,22 @@ def handle (line : String) : String :=
       if L = 0 ∨ a.length ≠ L ∨ (¬ d ∧ b.length ≠ L) then "bad-op"
       else showOps (ldtdvp L m (fun i => a.getD i 0) (fun i => b.getD i 0) d)
     | _, _, _, _, _ => "bad-op"
+  | [["fullldtdvp", l, mx, dg], lr, rl] =>
+    match l.toNat?, mx.toNat?, parseFlag? dg, parseAll? String.toNat? lr, parseAll? String.toNat? rl with
+    | some L, some m, some d, some a, some b =>
+      if L = 0 ∨ a.length ≠ L ∨ (¬ d ∧ b.length ≠ L) then "bad-op"
+      else showSteps (ldtdvpFull L (fun i => capped (a.getD i 0) m) (fun i => capped (b.getD i 0) m) d)
+    | _, _, _, _, _ => "bad-op"
+  | [["fullsingle", l, dg]] =>
+    match l.toNat?, parseFlag? dg with
+    | some L, some d => if L = 0 then "bad-op" else showSteps (singleSiteFull L d)
+    | _, _ => "bad-op"
+  | [["fulltwo", l, dg]] =>
+    match l.toNat?, parseFlag? dg with
+    | some L, some d => if L = 0 then "bad-op" else match twoSiteFull L d with
+      | some st => showSteps st
+      | none => "err"
+    | _, _ => "bad-op"
   | [["single", l, dg]] =>
     match l.toNat?, parseFlag? dg with
     | some L, some d => if L = 0 then "bad-op" else showOps (singleSite L d)
